@@ -18,13 +18,15 @@ Proj(h) == <<Sel(h, {"submit", "taskend"}), Sel(h, {"waitcall", "waitret", "clos
 
 Judge(c, D) ==
   LET cfg == c.cfg
-  IN \E res \in {[C12 |-> IF Want("C12") THEN P!Failing(P!C12_Clauses(cfg, D)) ELSE {},
-              C08 |-> IF Want("C08") THEN P!Failing(P!C08P_Clauses(cfg, D)) ELSE {}]} :
+      \* histories of a Close without Wait are outside what the properties promise: they are only trace-validated
+      judged == c.fam # "poolearly"
+  IN \E res \in {[C12 |-> IF Want("C12") /\ judged THEN P!Failing(P!C12_Clauses(cfg, D)) ELSE {},
+              C08 |-> IF Want("C08") /\ judged THEN P!Failing(P!C08P_Clauses(cfg, D)) ELSE {}]} :
      LET bad == {p \in DOMAIN res : res[p] # {}} IN
      /\ \A p \in bad : PrintT(<<"FAIL", c.scn, p, res[p]>>)
      /\ (c.hasexp /\ Proj(c.exp) # Proj(c.h)) => PrintT(<<"DRIFT", c.scn>>)
 
-HitKeys == {"multiSubmitter", "multiRound", "beyondQueue", "overlapped", "nonPositive", "queueFull", "paced"}
+HitKeys == {"multiSubmitter", "multiRound", "beyondQueue", "overlapped", "nonPositive", "queueFull", "paced", "earlyClose"}
 Init == /\ i = 1
         /\ stats = [scenarios |-> 0, events |-> 0, hits |-> [k \in HitKeys |-> 0]]
 Next ==
